@@ -88,6 +88,12 @@ ExpectedRecords(d, module) ==
                [what |-> "exit", level |-> 5, target |-> "tracing::span::active"] >>
          \* d.guard2: the driver additionally clones the handle, enters it through the owned guard, exits and drops the clone:
          \* one more enter, one more exit, and the close of that handle
+         \* d.fut: the span wraps a future (Instrument::instrument) that is polled once and then dropped: Instrumented enters the
+         \* span around the poll (the pair above) and once more around dropping the future
+         \o (IF "fut" \in DOMAIN d /\ d.fut
+             THEN << [what |-> "enter", level |-> 5, target |-> "tracing::span::active"],
+                     [what |-> "exit", level |-> 5, target |-> "tracing::span::active"] >>
+             ELSE << >>)
          \o (IF "guard2" \in DOMAIN d /\ d.guard2
              THEN << [what |-> "enter", level |-> 5, target |-> "tracing::span::active"],
                      [what |-> "exit", level |-> 5, target |-> "tracing::span::active"],
